@@ -2,6 +2,7 @@ import PyxisVerif.Spec.C09
 import PyxisVerif.Lemmas.C09
 import PyxisVerif.Lemmas.C19
 import PyxisVerif.Props.C19Frame
+import PyxisVerif.Props.C19FrameVft
 /-!
 # C19 – a module's bindings do not depend on unrelated definitions
 
